@@ -31,12 +31,21 @@ def run(ctx):
     total = 0
     plans = [("graphs", HAND + random_types(ctx.seed, n), PROBES), ("wide", WIDE, WIDE_PROBES)]
     for name, types, probes in plans:
-        r = ctx.tlc("MC_Fields", name="MC_Fields_" + name, capture_lines=False,
-                    consts={"Types": types, "Probes": probes, "EmitCases": True},
-                    invariants=("RulesEqualAlgorithm", "UniqueNames", "EmitInv"), timeout=3000)
-        s = ctx.replay_cases("fld", r.out)
-        total += int(s.get("cases", 0))
-        ctx.part("replay_" + name, types=s.get("cases"), executions=s.get("evaluations"), skipped=s.get("skipped_types"))
+        # TLC re-evaluates a constant tuple at every reference: keep the lists short, run the
+        # chunks side by side
+        chunks = [types[i:i + 200] for i in range(0, len(types), 200)]
+        rs = ctx.tlc_parallel([dict(module="MC_Fields", name="MC_Fields_%s_%d" % (name, k), capture_lines=False, workers=2,
+                                    consts={"Types": ch, "Probes": probes, "EmitCases": True},
+                                    invariants=("RulesEqualAlgorithm", "UniqueNames", "EmitInv"), timeout=3000)
+                               for k, ch in enumerate(chunks)], max_procs=8)
+        cases = evals = skipped = 0
+        for r in rs:
+            s = ctx.replay_cases("fld", r.out)
+            cases += int(s.get("cases", 0))
+            evals += int(s.get("evaluations", 0))
+            skipped += int(s.get("skipped_types", 0))
+        total += cases
+        ctx.part("replay_" + name, types=cases, executions=evals, skipped=skipped)
     # omitzero / omitempty / string / case options on fields of every modelled type (Arshal.tla):
     # exact Marshal output and the field each member is stored into, merged into existing values
     import arshalfam as af
